@@ -502,6 +502,20 @@ impl Parser {
                         format!("type mismatch: this assignment will update a variable with type `{}`, which is not compatible with the original type `{}`", previous_ty.ty().unwrap(), &x.idents[0])
                     )]);
                 }
+
+                // What the closure depends on is the captured variable as it was declared
+                // (`o: int?`, `s: str`), not the type of the value being stored into it
+                // (`int`, a string of another length): otherwise the declaring function does
+                // not recognise the dependency as its own variable and passes it on upwards.
+                let declared = previous_ty.ty().unwrap().as_ref().to_owned();
+                let declared = if let TypeLayout::CallbackVariable(..) = declared {
+                    declared
+                } else {
+                    TypeLayout::CallbackVariable(Box::new(declared))
+                };
+                x.idents[0].set_type_no_link(Cow::Owned(declared));
+                // ... and later uses of the name in this function still mean that variable
+                user_data.add_dependency(&x.idents[0]);
             }
         }
 
